@@ -75,6 +75,24 @@ def judge_file(first: dict, second: dict, cid: str, rel: str, initial: str):
     return flagged, untouched, still
 
 
+def _bound_names(text: str) -> set[str]:
+    import ast
+
+    out = set()
+    try:
+        tree = ast.parse(text)
+    except SyntaxError:
+        return out
+    for n in ast.walk(tree):
+        if isinstance(n, ast.Name) and isinstance(n.ctx, ast.Store):
+            out.add(n.id)
+        elif isinstance(n, (ast.FunctionDef, ast.AsyncFunctionDef, ast.ClassDef)):
+            out.add(n.name)
+        elif isinstance(n, (ast.Import, ast.ImportFrom)):
+            out.update((a.asname or a.name).split(".")[0] for a in n.names)
+    return out
+
+
 def _pair_scenarios(chk: Check, cids: list[str], pins: set) -> list[dict]:
     """Two rule-detected codemods in one invocation over files holding a (pinned) seed of each; the first codemod of
     the queue is one whose fix changes the number of lines."""
@@ -103,6 +121,8 @@ def _pair_scenarios(chk: Check, cids: list[str], pins: set) -> list[dict]:
             n = 0
             for sa in a_seeds:
                 for sb in pinned[k2][:per]:
+                    if _bound_names(sa.input) & _bound_names(sb.input):
+                        continue  # the concatenation would re-bind a name: a shape codemods may decline
                     for order, text in (("ab", sa.input.rstrip("\n") + "\n\n" + sb.input), ("ba", sb.input.rstrip("\n") + "\n\n" + sa.input)):
                         if not pyoracle.compiles(text):
                             continue
